@@ -1,0 +1,7 @@
+//go:build verif
+
+package cache
+
+import "unsafe"
+
+func unsafePointer(c *lruCache) unsafe.Pointer { return unsafe.Pointer(c) }
